@@ -67,6 +67,14 @@ pub fn run_c08(chk: &Check, tier: Tier) {
         }
         let out = xs::explore(&sys, &Limits::default());
         engine::record(chk, &sys, &out, None);
+        if c == channels[0] {
+            // pumped cycles (every cycle of length <= 3 over 7 controllers, 300 rounds, each feed
+            // judged) from every state of a small-domain companion system
+            let mut small = c08_system("C08", c, Report { oracle: true, ..Default::default() }, &[0, 1, 127]).with_pumps(&[0, 1, 31, 32, 33, 63, 64], 3);
+            small.storms = vec![(256, false)];
+            let o2 = xs::explore(&small, &Limits::default());
+            engine::record(chk, &small, &o2, None);
+        }
         if out.found.is_empty() && out.nodes.len() != 4097 && out.exhaustive {
             // not a violation of the property; tells a reader the state space is not what the
             // design assumed
